@@ -98,9 +98,9 @@ func placementName(p int) string {
 
 type wireDefect struct {
 	family, name string
-	cut          string                               // body-read-failed: where the read fails
+	cut          string                                // body-read-failed: where the read fails
 	err          func(cancel context.CancelFunc) error // body-read-failed: with what
-	state        string                               // malformed-pair: the raw (unescaped) state value put on the wire
+	state        string                                // malformed-pair: the raw (unescaped) state value put on the wire
 	undecodable  bool
 	junk         string // malformed-pair: an unrelated malformed pair
 	inBody       bool   // ... placed in the body (else the query)
